@@ -641,7 +641,10 @@ class Resolver:
             elif k == "index":
                 t = ("index", t, self.local(e["local"], depth + 1, seen))
             elif k == "cidx":
-                t = ("index", t, ("const", "usize", e["off"]))
+                if t[0] == "agg" and t[1][0] == "array" and not e.get("from_end") and e["off"] < len(t[2]):
+                    t = t[2][e["off"]]                  # `let [a, b] = [x, y]`: the element itself
+                else:
+                    t = ("index", t, ("const", "usize", e["off"]))
             elif k == "subslice" and (not e["from_end"] or e.get("array_len", -1) >= 0):
                 # `[a, rest @ ..]` patterns: the same tree as base[from..to]
                 hi = e["to"] if not e["from_end"] else e["array_len"] - e["to"]
